@@ -232,7 +232,7 @@ class ModbusRtuFramer(ModbusFramer):
             unit = [unit]
         self.addToFrame(data)
         single = kwargs.get("single", False)
-        if self.isFrameReady():
+        while self.isFrameReady():
             if self.checkFrame():
                 if self._validate_unit_id(unit, single):
                     self._process(callback)
@@ -245,6 +245,7 @@ class ModbusRtuFramer(ModbusFramer):
                 # bytes are still there the frame is merely incomplete: keep
                 # them and recompute the header when more data has arrived
                 self._header = {}
+                break
             else:
                 _logger.debug("Frame check failed, ignoring!!")
                 self.resetFrame()
